@@ -91,3 +91,23 @@ def val(x):
     if x is None:
         return None
     return getattr(x, "value", x)
+
+
+CONTAINER_TYPES = ("Community", "Region")
+
+
+def container_paths(case: dict) -> set:
+    """Paths (below the root, root = ()) of the nodes of an explicit zone tree that only group sites: communities and
+    regions are never targeted themselves (main._get_community_targets / _get_regional_targets only descend), so no
+    direct-integration record is expected for them."""
+    out = set()
+
+    def rec(node, path):
+        if node.get("type") in CONTAINER_TYPES:
+            out.add(path)
+        for c in node.get("children") or []:
+            rec(c, path + (c["name"],))
+
+    if case.get("zone_tree"):
+        rec(case["zone_tree"], ())
+    return out
